@@ -83,6 +83,9 @@ def fault_specs(case, run):
             kinds.append('brokenpipe')
         if site in ('stream.read', 's3.get_object'):
             kinds.append('retryable:1')
+        if site in ('src.read', 'fs.read', 'dst.write', 'fs.write'):
+            # what a closed file object raises
+            kinds.append('valueerror')
         for w in whens:
             for k in kinds:
                 specs.append({'site': site, 'nth': g, 'when': w, 'exc': k})
